@@ -884,7 +884,7 @@ func quickSel(seed uint64, idx, kind int) bool {
 func jpCases(seed uint64, tier string, salt uint64) []Case {
 	n := 64
 	if !quick(tier) {
-		n = 2500
+		n = 1000
 	}
 	var cs []Case
 	for i := 0; i < n; i++ {
